@@ -403,7 +403,7 @@ func runC01(c *Ctx) {
 			}
 		}
 		// random sizes
-		for i := 0; i < r.Pick(12, 200); i++ {
+		for i := 0; i < r.Pick(12, 1500); i++ {
 			size := rng.Intn(200000)
 			if rng.Intn(3) == 0 {
 				size = rng.Intn(300)
